@@ -22,3 +22,9 @@ Proof. vm_compute. reflexivity. Qed.
 
 Lemma no_restricted_refs_lemma : forallb unrestricted refs = true.
 Proof. vm_compute. reflexivity. Qed.
+
+Lemma no_removed_methods_lemma : forallb method_ok method_names = true.
+Proof. vm_compute. reflexivity. Qed.
+
+Lemma all_dirs_packaged_lemma : unpackaged_dirs = [].
+Proof. vm_compute. reflexivity. Qed.
